@@ -15,8 +15,8 @@ Print Assumptions C08_never_writes_an_assigned_node.
 (* processing a node that already has pod CIDRs issues no API request at all, whatever the state,
    the staleness of the copy being processed, or the scripted outcomes *)
 Theorem C08_resync_writes_nothing :
-  forall po lab canp apisame held m node reread outs,
+  forall po lab svcs canp apisame held m node reread outs,
   n_cidrs node <> [] -> n_deleting node = false ->
-  snd (sync_node po lab canp apisame held m (Some node) reread outs) = [].
+  snd (sync_node po lab svcs canp apisame held m (Some node) reread outs) = [].
 Proof. exact sync_assigned_node_writes_nothing. Qed.
 Print Assumptions C08_resync_writes_nothing.
